@@ -2,7 +2,8 @@
 (* Case space of C07: every program of at most MaxLen symbols over an alphabet *)
 (* built for the gas discipline - pushes, refunding pops, back and forward     *)
 (* jumps, CHECKPREDICATE calls (operands + call as one symbol; predicates that *)
-(* succeed, fail, run out of gas, leave items behind, call again), altstack    *)
+(* succeed, fail, run out of gas, leave items behind, call again; limit        *)
+(* operands 2^63-1, 2^63, 2^63+1, 2^64-1, 2^64), altstack                      *)
 (* moves, size-dependent costs, expansion opcodes - x gas limits from 0 up.    *)
 (* TLC enumerates the space; the cases are evaluated by VMRun.tla, where the   *)
 (* invariants GasNonNeg / PhiBounded / ChildBounded / ResultBounded are        *)
@@ -13,6 +14,9 @@ CONSTANTS MaxLen, NShards, Shard, Limits
 
 (* n predicate limit CHECKPREDICATE with n = 0 (all items) *)
 CP(pred, lim) == <<0>> \o <<Len(pred)>> \o pred \o lim \o <<192>>
+
+B7(b) == <<b, b, b, b, b, b, b>>
+B6(b) == <<b, b, b, b, b, b>>
 
 Sym == << <<0>>,                       \* push ""
           <<81>>,                      \* push 1
@@ -40,7 +44,14 @@ Sym == << <<0>>,                       \* push ""
           CP(<<118, 118>>, <<1, 40>>), \* predicate DUP DUP, limit 40: leaves items behind / runs out
           CP(<<130>>, <<81>>),         \* predicate SIZE, limit 1: cannot pay for its result
           CP(<<99, 0, 0, 0, 0>>, <<1, 30>>),          \* predicate loops until its limit is used up
-          CP(<<0, 1, 81, 0, 192>>, <<0>>) >>          \* predicate calls CHECKPREDICATE again
+          CP(<<0, 1, 81, 0, 192>>, <<0>>),            \* predicate calls CHECKPREDICATE again
+          \* limit operands at the int64 / uint64 boundaries (non-empty predicate): a limit that is not an
+          \* int64 must fail as a bad value and can never raise the parent's gas
+          CP(<<81>>, <<8>> \o B7(255) \o <<127>>),               \* 2^63-1: valid, more than any gas
+          CP(<<81>>, <<8>> \o B7(0) \o <<128>>),                 \* 2^63
+          CP(<<81>>, <<8, 1>> \o B6(0) \o <<128>>),              \* 2^63+1
+          CP(<<81>>, <<8>> \o B7(255) \o <<255>>),               \* 2^64-1
+          CP(<<97, 81>>, <<9>> \o B7(0) \o <<0, 1>>) >>          \* 2^64, predicate NOP TRUE
 K == Len(Sym)
 
 ArgLists == << <<>>, << <<1>>, <<97, 98, 99>> >> >>
